@@ -436,6 +436,47 @@ def check_model(rng, m, rep, lines, metas, methods):
             fn = "none" if res.fun is None else rat(res.fun)
             lines.append(f"lppost {dt} ({'true' if res.success else 'false'} {int(res.status)} {xs} {fn})")
             metas.append(("post", s, m, method))
+    # ---- editing the same Problem and solving again ("on repeated solves"): flip the orientation by
+    #      re-submitting the SAME objective object, or add one more constraint; the model is re-extracted
+    #      from the same expression / constraint objects and must still be the model the user wrote
+    if rng.random() < 0.5:
+        m2 = dict(m)
+        if rng.random() < 0.6:
+            m2["is_max"] = not m["is_max"]
+            (P.maximize if m2["is_max"] else P.minimize)(P.objective)
+            edit = "flip-sense-same-objective-object"
+        else:
+            a = [float(rng.randint(-1, 2)) for _ in m["c"]]
+            if not any(a):
+                a[0] = 1.0
+            rhs = float(rng.randint(2, 14))
+            m2["rows"] = list(m["rows"]) + [(a, "<=", rhs)]
+            elems = block_elems(x) + list(ys)
+            lhs = None
+            for ai, v in zip(a, elems):
+                if ai != 0:
+                    lhs = ai * v if lhs is None else lhs + ai * v
+            P.subject_to(lhs <= rhs)
+            edit = "add-constraint"
+        rep.histogram["edit:" + edit] = rep.histogram.get("edit:" + edit, 0) + 1
+        ref2_status, ref2_obj = reference(m2)
+        if ref2_status in ("OPTIMAL", "INFEASIBLE", "UNBOUNDED"):
+            for method in ["auto", rng.choice(METHODS)]:
+                try:
+                    s2 = solve_one(P, method)
+                except Exception as ex:  # noqa: BLE001
+                    rep.oracle_failures.append({"what": f"re-solve after {edit} raised {type(ex).__name__}: {ex}"[:300],
+                                                "model": m, "edited_model": m2, "method": method})
+                    break
+                rep.evaluations += 1
+                rs, ro = (ref2_status, ref2_obj) if method in ("auto", "linprog", "highs") else reference(m2, method)
+                if rs not in ("OPTIMAL", "INFEASIBLE", "UNBOUNDED"):
+                    continue
+                if not (s2.status.name == rs and (rs != "OPTIMAL" or close_obj(s2.objective_value, ro))):
+                    rep.oracle_failures.append({
+                        "what": f"after {edit} on the same Problem, optyx and the independently assembled LP disagree",
+                        "model": m, "edited_model": m2, "edit": edit, "method": method,
+                        "optyx": [s2.status.name, s2.objective_value], "reference": [rs, ro]})
     key = (tuple(m["c"]), m["is_max"], tuple((tuple(a), s, r) for a, s, r in m["rows"]), tuple(m["bounds"]))
     if m["rows"]:
         rep.nontrivial.add(hash(key))
@@ -525,7 +566,7 @@ def replay(payload) -> bool:
     m["rows"] = [(list(a), s, float(r)) for a, s, r in m["rows"]]
     m["bounds"] = [tuple(b) for b in m["bounds"]]
     ok = True
-    for seed in range(20):  # the writing style is random: try several
+    for seed in range(60):  # the writing style and the edit step are random: try several
         rep = core.Report()
         check_model(core.Rng(seed), m, rep, [], [], [f.get("method", "auto"), "auto"])
         if rep.oracle_failures:
